@@ -59,7 +59,7 @@ def media_class_evaluator(m):
     fn = m.get('_getTextTypeByMediaType')
     intr = dict(consts)
     intr['re.match'] = _re_match
-    ev = Evaluator(fn, intrinsics=intr)
+    ev = Evaluator(fn, intrinsics=intr, module=m)
     # re flags appear as attribute accesses re.I | re.S | re.X
     return ev, consts
 
@@ -91,7 +91,7 @@ def r20b(chk, rid='R20.b'):
     fn = _patch_re_flags(m.get('_getTextTypeByMediaType'))
     intr = dict(consts)
     intr['re.match'] = _re_match
-    ev = Evaluator(fn, intrinsics=intr)
+    ev = Evaluator(fn, intrinsics=intr, module=m)
     for mt, cls in list(MEDIA_CLASSES.items()) + [(None, 'other'), ('', 'other'), ('  Text/HTML ', 'html')]:
         got = ev.run(media_type=mt, log=None)
         chk.ob(rid, ENC, '_getTextTypeByMediaType', f'{mt!r} is classified as {cls}', got == consts[names[cls]], f'classified as constant {got}')
@@ -154,15 +154,15 @@ def r20a(chk, rid='R20.a'):
                         'detectXMLEncoding': detectXML,
                         'getMetaInfo': getMeta,
                         'tryEncodings': tryEnc,
-                        '_getTextTypeByMediaType': lambda mt, log=None: Evaluator(tt_fn, intrinsics={**consts, 're.match': _re_match}).run(media_type=mt, log=None),
-                        '_getTextType': lambda t, log=None: Evaluator(gt_fn, intrinsics=consts).run(text=t, log=None),
-                        'encodingByMediaType': lambda mt, log=None: Evaluator(eb_fn, intrinsics={**consts, '_getTextTypeByMediaType': lambda mt2, log=None: Evaluator(tt_fn, intrinsics={**consts, 're.match': _re_match}).run(media_type=mt2, log=None)}).run(media_type=mt, log=None),
+                        '_getTextTypeByMediaType': lambda mt, log=None: Evaluator(tt_fn, intrinsics={**consts, 're.match': _re_match}, module=m).run(media_type=mt, log=None),
+                        '_getTextType': lambda t, log=None: Evaluator(gt_fn, intrinsics=consts, module=m).run(text=t, log=None),
+                        'encodingByMediaType': lambda mt, log=None: Evaluator(eb_fn, module=m, intrinsics={**consts, '_getTextTypeByMediaType': lambda mt2, log=None: Evaluator(tt_fn, intrinsics={**consts, 're.match': _re_match}, module=m).run(media_type=mt2, log=None)}).run(media_type=mt, log=None),
                         'EncodingInfo': lambda: Record(encoding=None, mismatch=None, logtext=None, http_encoding=None, http_media_type=None, meta_encoding=None, meta_media_type=None, xml_encoding=None),
                         'io.StringIO': lambda: Record(getvalue=lambda: ''),
                         'buildlog': lambda **k: logrec,
                         'AttributeError': 'AttributeError', 'ValueError': 'ValueError', 'OSError': 'OSError',
                     })
-                    ev = Evaluator(fn, intrinsics=intr)
+                    ev = Evaluator(fn, intrinsics=intr, module=m)
                     response = Record(read=lambda: doc) if cls != 'noresponse' else None
                     res = ev.run(response=response, text=doc, log=logrec, url=None)
                     n += 1
@@ -288,7 +288,7 @@ def r20e(chk, rid='R20.e'):
                     else:
                         arg = _FP(data, 0 if kind == 'file@0' else 3)
                     start = arg.pos if isinstance(arg, _FP) else None
-                    ev = Evaluator(fn, intrinsics=intr, model_types=(_FP, _RE, re.Match))
+                    ev = Evaluator(fn, intrinsics=intr, model_types=(_FP, _RE, re.Match), module=m)
                     try:
                         got = ev.run(fp=arg, log=None, includeDefault=incl)
                     except AnalysisError:
